@@ -3,6 +3,7 @@ package rag
 import (
 	"strings"
 	"unicode"
+	"unicode/utf8"
 )
 
 // OverlapStrategy defines how overlap between chunks is computed
@@ -165,6 +166,11 @@ func (og *OverlapGenerator) generateCharacterOverlap(text string) string {
 		}
 	}
 
+	// Never start inside a multi-byte character
+	for start < len(text) && !utf8.RuneStart(text[start]) {
+		start++
+	}
+
 	if start >= len(text) {
 		return ""
 	}
@@ -241,7 +247,7 @@ func (og *OverlapGenerator) truncateOverlap(overlap string) string {
 	sentences := splitIntoSentencesWithPositions(overlap)
 	if len(sentences) == 0 {
 		// No sentences, truncate at word boundary
-		return og.generateCharacterOverlap(overlap[:og.config.MaxOverlap])
+		return og.generateCharacterOverlap(truncateAtRuneBoundary(overlap, og.config.MaxOverlap))
 	}
 
 	// Find how many sentences fit within MaxOverlap
@@ -265,10 +271,25 @@ func (og *OverlapGenerator) truncateOverlap(overlap string) string {
 
 	if result.Len() == 0 {
 		// First sentence exceeds max, truncate it
-		return og.generateCharacterOverlap(overlap[:og.config.MaxOverlap])
+		return og.generateCharacterOverlap(truncateAtRuneBoundary(overlap, og.config.MaxOverlap))
 	}
 
 	return result.String()
+}
+
+// truncateAtRuneBoundary returns the longest prefix of s that is at most max
+// bytes long and does not end inside a multi-byte character.
+func truncateAtRuneBoundary(s string, max int) string {
+	if max >= len(s) {
+		return s
+	}
+	if max < 0 {
+		max = 0
+	}
+	for max > 0 && !utf8.RuneStart(s[max]) {
+		max--
+	}
+	return s[:max]
 }
 
 // sentenceWithPosition holds a sentence and its position in the original text
